@@ -257,7 +257,7 @@ def _pki(proto):
 
 live_case = st.fixed_dictionaries({"proto": st.sampled_from(net.PROTOS), "dir": st.sampled_from(["c2s", "s2c"]), "seed": st.integers(0, 1 << 20),
                                    "nmsg": st.integers(2, 5), "sizes": st.lists(st.integers(1, 3000), min_size=5, max_size=5),
-                                   "fault": st.sampled_from(["dup", "swap", "drop", "replay-first"]), "at": st.integers(0, 4)})
+                                   "fault": st.sampled_from(["dup", "swap", "drop", "replay-first", "corrupt", "corrupt", "replace-with-first"]), "at": st.integers(0, 4)})
 
 
 @P.sub("live", live_case, quick=160, thorough=6000)
@@ -291,6 +291,12 @@ def live(case, ctx):
                 state["held"] = rec.raw; return []
             if fault == "replay-first" and i > 0:
                 state["hit"] = 1; return [state["first"], rec.raw]
+            if fault == "corrupt":
+                # the record is deleted and something that cannot authenticate takes its place
+                b = bytearray(rec.raw); b[5 + (case["seed"] >> 3) % (len(b) - 5)] ^= 1 << (case["seed"] & 7)
+                state["hit"] = 1; return [bytes(b)]
+            if fault == "replace-with-first" and i > 0:
+                state["hit"] = 1; return [state["first"]]
         return [rec.raw]
     s = net.Session(ctx.variant, proto, _pki(proto), hook=hook, seed=case["seed"], quiet_ms=None)
     try:
@@ -309,22 +315,37 @@ def live(case, ctx):
         sent = b"".join(msgs)
         got = b""
         rets = []
-        for _ in range(nmsg + 3):
+        after_error = b""
+        failed = False
+        for _ in range(nmsg + 4):
             r = rcv.do("recv", 4096, timeout=20.0)
             if r[0] == "timeout":
                 ctx.note("inconclusive-timeout"); return
             rets.append(r[1])
             if r[1] != 1:
-                break
-            got += r[2]
+                if failed and r[1] == 0:
+                    break
+                failed = True          # an application that keeps reading after an error must not be handed the records behind the gap
+                continue
+            if failed:
+                after_error += r[2]
+            else:
+                got += r[2]
+        # what an application that keeps reading after an error is handed must still be the sent stream, in order and without gaps (a genuine
+        # in-order record after a rejected duplicate is fine; a record behind a deleted or altered one is not)
+        ctx.check(b"".join(msgs).startswith(got + after_error), "%s receiver, read on after it had rejected a record ('%s' of record %d), delivered %d more bytes that do not continue "
+                  "the stream where it stopped: a record behind a deleted / altered one was accepted" % (proto, fault, at, len(after_error)),
+                  "live/gap-accepted-after-error/%s/%s" % (proto, fault))
         ctx.case(nontrivial=bool(state["hit"]), classes=[proto, d, fault], ident=[proto, d, fault, at, nmsg, case["seed"]], sample=case)
         ctx.check(sent.startswith(got), "%s receiver accepted bytes that are not a prefix of what was sent after '%s' of record %d (%d bytes accepted)" %
                   (proto, fault, at, len(got)), "live/not-prefix/%s/%s" % (proto, fault))
         if state["hit"]:
             intact = sum(len(m) for m in msgs[:at]) + (len(msgs[at]) if fault in ("dup", "replay-first") else 0)
+            if fault in ("corrupt", "replace-with-first") and not (fault == "replace-with-first" and at == 0):
+                intact = sum(len(m) for m in msgs[:at])
             ctx.check(len(got) <= intact, "%s receiver kept accepting data after '%s' of record %d: %d bytes accepted, at most %d are legitimate" %
                       (proto, fault, at, len(got), intact), "live/accepted-after/%s/%s" % (proto, fault))
-            ctx.check(rets[-1] != 1, "receiver never reported the manipulated stream", "live/no-error/%s/%s" % (proto, fault))
+            ctx.check(any(x != 1 for x in rets), "receiver never reported the manipulated stream", "live/no-error/%s/%s" % (proto, fault))
     finally:
         s.finish()
 
